@@ -17,7 +17,7 @@ META = dict(
                 'value-forked where used as list lengths); real build_oms_list/reversed_oms on generated 3-ROADM meshes with symbolic '
                 'per-line amplifier bands and optional unidirectional lines; bit-precise fp-lemmas (z3 + cvc5, QF_BVFP) for '
                 'frequency_to_n / nvalue_to_frequency / slots_to_m / mvalue_to_slots translated from the current source',
-    bounds=['slot numbers within [-5, 5] (quick) / [-8, 8] (thorough) around 193.1 THz for the maps (network range, 1-2 amplifier bands per OMS, C-only / L-only / '
+    bounds=['slot numbers within [-3, 3] (quick) / [-6, 6] (thorough) around 193.1 THz for the maps (network range, 1-2 amplifier bands per OMS, C-only / L-only / '
             'C+L / narrower)', '3 ROADM sites, lines present or absent per direction', 'fp-lemmas: |n| <= 4096, 1 <= m <= 512, binary64'],
     assumptions=['frequencies are on the 6.25 GHz grid (band edges given as slot numbers), float rounding of the index conversions '
                  'covered by the fp-lemmas', 'amplifier bands of one element do not overlap'],
@@ -91,8 +91,8 @@ def h_oms_bitmap(ctx, shape, R=8):
     from gnpy.core.exceptions import SpectrumError
     from gnpy.topology.spectrum_assignment import OMS, BitmapValue, create_oms_bitmap
     eqpt = equipment()
-    lo = ctx.int('net_n_min', -R, -2)
-    hi = ctx.int('net_n_max', 2, R)
+    lo = ctx.int('net_n_min', -R, -R + 1)
+    hi = ctx.int('net_n_max', R - 1, R)
 
     def band(tag, lo_b=None, hi_b=None):
         a = ctx.int(f'{tag}_n_min', -R, R)
@@ -322,7 +322,7 @@ def jobs(tier):
     for n in ([2] if tier == 'quick' else [2, 3]):
         js.append(dict(name=f'H15a:align_grids:{n}oms', fn='h_align', params=dict(n_oms=n), witness_every=5, cost=100 * n))
     for shape in ('one_band_two_amps', 'two_bands', 'two_then_one'):
-        js.append(dict(name=f'H15b:oms_bitmap:{shape}', fn='h_oms_bitmap', params=dict(shape=shape, R=5 if tier == 'quick' else 8), witness_every=20,
+        js.append(dict(name=f'H15b:oms_bitmap:{shape}', fn='h_oms_bitmap', params=dict(shape=shape, R=3 if tier == 'quick' else 6), witness_every=20,
                        budget_s=200 if tier == 'quick' else 1200, cost=500))
     for modes in itertools.product(('both', 'forward_only', 'backward_only'), ('both', 'forward_only', 'backward_only', 'absent'),
                                    ('both', 'backward_only', 'absent')):
